@@ -667,7 +667,17 @@ func readerCase(c *core.Ctx, r *rand.Rand) {
 	if r.Intn(3) > 0 && nHigh > 2 {
 		nHigh = 1 + r.Intn(2) // most cases stay within two containers (where the reader is right)
 	}
-	highs := r.Perm(6)[:nHigh]
+	// thorough: one reader case in three is a BIG one — 6-10 containers out of 12 high keys, up to 40
+	// series per input (several low keys per container and input, so a scanner's cursor moves many
+	// times inside one container), 2-4 inputs
+	big := c.Tier == "thorough" && r.Intn(3) == 0
+	nHighs, perInput := 6, 10
+	if big {
+		nHighs, perInput = 12, 40
+		nHigh = 6 + r.Intn(5)
+		c.Branch("reader/big")
+	}
+	highs := r.Perm(nHighs)[:nHigh]
 	used := map[uint32]bool{}
 	gen := func(n int) []sv {
 		var es []sv
@@ -681,17 +691,24 @@ func readerCase(c *core.Ctx, r *rand.Rand) {
 		}
 		return es
 	}
-	es := gen(1 + r.Intn(10))
+	es := gen(1 + r.Intn(perInput))
 	c.Branch(fmt.Sprintf("reader/containers-%d", nHigh))
-	for h := 0; h < 6; h++ {
+	for h := 0; h < nHighs; h++ {
 		if r.Intn(2) == 0 || h == highs[0] {
 			readOp(c, append([]sv(nil), es...), uint16(h))
 		}
 	}
 	nf := 2 + r.Intn(2)
 	files := [][]sv{es}
+	if big {
+		nf = 2 + r.Intn(3)
+	}
 	for i := 1; i < nf; i++ {
-		files = append(files, gen(1+r.Intn(6)))
+		if big {
+			files = append(files, gen(11+r.Intn(perInput-10)))
+		} else {
+			files = append(files, gen(1+r.Intn(6)))
+		}
 	}
 	mergeOp(c, files)
 	// a compaction job: 2-4 tag keys through one merger; key sizes / container counts vary so that the
@@ -701,12 +718,20 @@ func readerCase(c *core.Ctx, r *rand.Rand) {
 	for k := 0; k < nk; k++ {
 		used = map[uint32]bool{}
 		if r.Intn(2) == 0 {
-			highs = r.Perm(6)[:1+r.Intn(5)]
+			if big {
+				highs = r.Perm(nHighs)[:1+r.Intn(10)]
+			} else {
+				highs = r.Perm(6)[:1+r.Intn(5)]
+			}
 		}
 		nf := 1 + r.Intn(3)
 		var fs [][]sv
 		for i := 0; i < nf; i++ {
-			fs = append(fs, gen(1+r.Intn(8)))
+			if big && r.Intn(2) == 0 {
+				fs = append(fs, gen(11+r.Intn(perInput-10)))
+			} else {
+				fs = append(fs, gen(1+r.Intn(8)))
+			}
 		}
 		jobs = append(jobs, mergeJobKey{key: uint32(1 + k*3 + r.Intn(3)), files: fs})
 	}
